@@ -12,9 +12,9 @@ pub struct Hist {
     pub id: &'static str,
 }
 
-struct Spec {
-    alphabet: u32,
-    max_len: usize,
+pub struct Spec {
+    pub alphabet: u32,
+    pub max_len: usize,
     want_names: bool,
     only_names: bool,
     min_site_kinds: usize,
@@ -22,7 +22,7 @@ struct Spec {
     rule: &'static str,
 }
 
-fn spec(id: &str) -> Spec {
+pub fn spec(id: &str) -> Spec {
     match id {
         "C06" => Spec {
             alphabet: A_FUNC | A_ADD | A_DELETE | A_TO_IMPORT | A_REPLACE_IMPORT | A_INJECT | A_EXPORTS,
@@ -131,7 +131,7 @@ fn tape_space() -> u64 {
     TAPE_BASE.pow(TAPE_LEN) * 4
 }
 
-fn base_module(id: &str, rng: &mut Rng, small: bool) -> Result<gen::GenModule, String> {
+pub fn base_module(id: &str, rng: &mut Rng, small: bool) -> Result<gen::GenModule, String> {
     let mut cfg = GenCfg::default_for(rng);
     cfg.names = true;
     cfg.customs = false;
